@@ -7,9 +7,39 @@ import threading
 import time
 
 VERIF = os.path.dirname(os.path.dirname(os.path.abspath(__file__)))
-DRIVER = os.path.join(VERIF, 'harness', 'driver')
-TARGET = os.path.join(VERIF, 'target')
+# The repository under test.  Checks registered in MANIFEST.json always use /repo; VERIF_REPO lets the
+# mutant trials run the same machinery against a scratch worktree (its own driver copy and target dir
+# live outside /repo and /verif and are removed with the worktree).
+REPO = os.path.abspath(os.environ.get('VERIF_REPO', '/repo'))
+if REPO == '/repo':
+    DRIVER = os.path.join(VERIF, 'harness', 'driver')
+    TARGET = os.path.join(VERIF, 'target')
+else:
+    import hashlib as _h
+    _alt = os.path.join(os.environ.get('VERIF_ALT_ROOT', '/tmp/verif-alt'), _h.sha1(REPO.encode()).hexdigest()[:10])
+    DRIVER = os.path.join(_alt, 'driver')
+    TARGET = os.path.join(_alt, 'target')
 BIN = os.path.join(TARGET, 'bin')
+
+
+def prepare_alt_driver():
+    """copy harness/driver next to the alternative repository and point its path dependencies there"""
+    if REPO == '/repo':
+        return
+    src = os.path.join(VERIF, 'harness', 'driver')
+    os.makedirs(DRIVER, exist_ok=True)
+    for root, dirs, files in os.walk(src):
+        rel = os.path.relpath(root, src)
+        if rel.startswith('target'):
+            continue
+        os.makedirs(os.path.join(DRIVER, rel), exist_ok=True)
+        for f in files:
+            sp, dp = os.path.join(root, f), os.path.join(DRIVER, rel, f)
+            data = open(sp, 'rb').read()
+            if f == 'Cargo.toml':
+                data = data.replace(b'"/repo/', ('"' + REPO + '/').encode())
+            if not os.path.exists(dp) or open(dp, 'rb').read() != data:
+                open(dp, 'wb').write(data)
 GUARD = '--cfg curve25519_dalek_verif'
 
 BACKENDS = {
@@ -55,6 +85,7 @@ def nightly_ok():
 def build_one(cfg, profile='rel', quiet=True):
     """Returns (path or None, message)."""
     be, tables, legacy = parse_cfg(cfg)
+    prepare_alt_driver()
     os.makedirs(BIN, exist_ok=True)
     tdir = os.path.join(TARGET, be + {'asan': '-asan', 'bnd': '-bnd', 'bndchk': '-bnd'}.get(profile, ''))
     feats = []
